@@ -309,9 +309,15 @@ class Tensor:
     def __copy__(self) -> Self:
         return self.copy()
 
+    def _elementwise_result(self, array: np.ndarray) -> Tensor:
+        # keep the index types of self: the tensor indices are the trailing axes, all others stay free indices
+        tensor_rank = self.rank - self.free_indices
+        covariant = [i - self.rank for i in self._covariant_indices]
+        return Tensor(array, covariant=covariant, tensor_rank=tensor_rank, copy=False)
+
     def __mul__(self, other: Tensor | npt.ArrayLike) -> Tensor:
         if is_numerical_scalar(other):
-            return Tensor(self.array * other, covariant=self._covariant_indices, copy=False)  # type: ignore[operator]
+            return self._elementwise_result(self.array * other)  # type: ignore[operator]
         if not isinstance(other, Tensor):
             other = Tensor(other, copy=False)
         return TensorDiagram((other, self)).calculate()
@@ -341,13 +347,13 @@ class Tensor:
 
     def __truediv__(self, other: Tensor | npt.ArrayLike) -> Tensor:
         if is_numerical_scalar(other):
-            return Tensor(self.array / other, covariant=self._covariant_indices, copy=False)  # type: ignore[operator]
+            return self._elementwise_result(self.array / other)  # type: ignore[operator]
         return NotImplemented
 
     def __add__(self, other: Tensor | npt.ArrayLike) -> Tensor:
         if isinstance(other, Tensor):
             other = other.array
-        return Tensor(self.array + other, covariant=self._covariant_indices, copy=False)  # type: ignore[operator]
+        return self._elementwise_result(self.array + other)  # type: ignore[operator]
 
     def __radd__(self, other: Tensor | npt.ArrayLike) -> Tensor:
         return self + other
@@ -355,7 +361,7 @@ class Tensor:
     def __sub__(self, other: Tensor | npt.ArrayLike) -> Tensor:
         if isinstance(other, Tensor):
             other = other.array
-        return Tensor(self.array - other, covariant=self._covariant_indices, copy=False)  # type: ignore[operator]
+        return self._elementwise_result(self.array - other)  # type: ignore[operator]
 
     def __rsub__(self, other: Tensor | npt.ArrayLike) -> Tensor:
         return -self + other
